@@ -747,7 +747,7 @@ def o8_statistic_accumulates(chk: Check) -> None:
     adds = [n for n in walk_body(fn.node) if isinstance(n, ast.Assign) and any(isinstance(t, ast.Subscript) and dotted(t.value) in stored_vars for t in n.targets)]
     chk.decide(bool(adds) and any("GroupedFailures" in unparse(a.value, 300) and "code_sample" in unparse(a.value, 300) for a in adds), "C05.O8", fn, "failures[case_id] = GroupedFailures(code_sample=..., failures=...)", "new failures are not stored together with the request that caused them", fn.loc())
     oe = P.func("cli/commands/run/context.py:ExecutionContext.on_event")
-    chk.decide(any(last_attr(c) == "on_scenario_finished" and unparse(c.args[0]) == "event.recorder" for c in body_calls(oe) if c.args), "C05.O8", oe, "every ScenarioFinished feeds the statistic", "finished scenarios are not folded into the statistic", oe.loc())
+    chk.decide(any(last_attr(c) == "on_scenario_finished" and ceq(oe, c.args[0], 'event.recorder') for c in body_calls(oe) if c.args), "C05.O8", oe, "every ScenarioFinished feeds the statistic", "finished scenarios are not folded into the statistic", oe.loc())
 
 
 # --------------------------------------------------------------------------------------------- O6 / O7
